@@ -12,6 +12,7 @@ The master level has the name `""`.
 import TickitModel.Core.Ticker
 import TickitModel.Core.Device
 import TickitModel.Core.Sched
+import TickitModel.Gen.Constants
 
 namespace Tickit
 
@@ -70,8 +71,8 @@ structure SimSt where
 
 abbrev Oracle := List (Comp × List DevResp)
 
-def pseudoExternal : Comp := "external"
-def pseudoExpose : Comp := "expose"
+def pseudoExternal : Comp := Gen.pseudoExternal
+def pseudoExpose : Comp := Gen.pseudoExpose
 
 def SimSt.sched (st : SimSt) (n : Comp) : SchedSt := agetD st.scheds n {}
 
